@@ -82,7 +82,7 @@ def run(chk, tier):
 
     # ---- B
     if thorough:
-        args = ["run", "--fams", 18, "--values", 3, "--threads", 12]
+        args = ["run", "--fams", 12, "--values", 3, "--threads", 12]
     else:
         args = ["run", "--fams", 6, "--values", 2, "--threads", 8, "--bulk-budget", 4000]
     res = common.vh(args, binname="c03", timeout=3000)
